@@ -753,25 +753,28 @@ def copyRegRec (m : Mode) (D : Dims) (T : Tables α) (s : St α) (r : CopyRegRec
                 (regApply m p.1.act copyKernel q.2 r.rv src p.2).map fun y => (putI p.1 r.tgt y)
         | none => some s
 
-/-- one record of OPERATER (`handle_operateR`) -/
+/-- one record of OPERATER (`handle_operateR`, code as fixed by bf5bceae1): target and SOURCE are fetched
+(`init_get`, i.e. created when absent) before the region is looked at, so the set of stored arrays does
+not depend on whether the region has an active cell -/
 def operRegRec (m : Mode) (D : Dims) (T : Tables α) (s : St α) (r : OperRegRec α) : Option (St α) :=
   match sget T.dbl r.tgt with
   | none => some s
   | some tinfo =>
     let p := getD m D s r.tgt tinfo
-    match regionArr m D T p.1 r.rn with
+    match sget T.dbl r.src with
     | none => none
-    | some q =>
-      if regEmpty m q.1.act q.2 r.rv then some q.1
-      else
-        match sget T.dbl r.src with
-        | none => none
-        | some sinfo =>
-          let u := getD m D q.1 r.src sinfo
+    | some sinfo =>
+      let u := getD m D p.1 r.src sinfo
+      match regionArr m D T u.1 r.rn with
+      | none => none
+      | some q =>
+        if regEmpty m q.1.act q.2 r.rv then some q.1
+        else
           match operateFn r.fn (operAlpha r.fn tinfo r.a) (operBeta r.fn tinfo r.b) with
           | none => none
           | some f =>
-            (regApply m u.1.act (operateKernel f (r.fn = "MULTIPLY" ∨ r.fn = "POLY")) q.2 r.rv u.2 p.2).map fun y => (putD u.1 r.tgt y)
+            -- creating the source never changes the target array, so `p.2` is still the target
+            (regApply m q.1.act (operateKernel f (r.fn = "MULTIPLY" ∨ r.fn = "POLY")) q.2 r.rv u.2 p.2).map fun y => (putD q.1 r.tgt y)
 
 /-- fold a record handler over the records of one keyword -/
 def foldRecs {σ ρ : Type} (f : σ → ρ → Option σ) : σ → List ρ → Option σ
